@@ -114,6 +114,7 @@ pub struct ModelEntry {
     pub central_extra: Vec<u8>,
     pub align: Option<u16>,
     pub is_dir: bool,
+    pub raw_copy: bool,
 }
 
 pub fn extras_bytes(list: &[Extra]) -> Vec<u8> {
@@ -167,6 +168,7 @@ pub fn model(p: &Program) -> (Vec<ModelEntry>, Vec<u8>) {
                     central_extra,
                     align,
                     is_dir: false,
+                    raw_copy: false,
                 });
             }
             Op::Dir { name, opts } => {
@@ -184,6 +186,7 @@ pub fn model(p: &Program) -> (Vec<ModelEntry>, Vec<u8>) {
                     central_extra: vec![],
                     align: None,
                     is_dir: true,
+                    raw_copy: false,
                 });
             }
             Op::Symlink { name, target, opts } => {
@@ -201,6 +204,7 @@ pub fn model(p: &Program) -> (Vec<ModelEntry>, Vec<u8>) {
                     central_extra: vec![],
                     align: None,
                     is_dir: false,
+                    raw_copy: false,
                 });
             }
             Op::Comment(c) => comment = c.clone(),
@@ -364,8 +368,17 @@ pub fn chunks(max: u32) -> BoxedStrategy<Vec<Content>> {
 }
 
 /// unreserved extra-field record (id outside 0..=31 and outside the APPNOTE-registered ids)
+/// Header IDs registered in APPNOTE 4.5.2 / 4.6 (third-party mappings): reserved for their owners.
+pub const REGISTERED_IDS: [u16; 49] = [
+    0x0001, 0x0007, 0x0008, 0x0009, 0x000a, 0x000c, 0x000d, 0x000e, 0x000f, 0x0014, 0x0015, 0x0016, 0x0017, 0x0018, 0x0019, 0x0020, 0x0021, 0x0022,
+    0x0023, 0x0065, 0x0066, 0x4690, 0x07c8, 0x2605, 0x2705, 0x2805, 0x334d, 0x4341, 0x4453, 0x4704, 0x470f, 0x4b46, 0x4c41, 0x4d49, 0x4f4c, 0x5356,
+    0x5455, 0x554e, 0x5855, 0x6375, 0x6542, 0x7075, 0x756e, 0x7855, 0xa11e, 0xa220, 0xfd4a, 0x9901, 0x9902,
+];
+pub fn is_reserved_id(id: u16) -> bool {
+    id <= 31 || REGISTERED_IDS.contains(&id)
+}
 pub fn good_extra(max_len: usize) -> BoxedStrategy<Extra> {
-    (prop_oneof![Just(0xbeefu16), Just(0xdeadu16), Just(0x0020u16), Just(0xfffe), 0x8000u16..0x9000], proptest::collection::vec(any::<u8>(), 0..=max_len))
+    (prop_oneof![Just(0xbeefu16), Just(0xdeadu16), Just(0x0024u16), Just(0xfffe), Just(0xffff), 0x8000u16..0x9000, any::<u16>().prop_map(|x| if is_reserved_id(x) { 0xcafe } else { x })], proptest::collection::vec(any::<u8>(), 0..=max_len))
         .prop_map(|(id, data)| Extra { id, data })
         .boxed()
 }
